@@ -271,11 +271,11 @@ pub fn eval<D: Dom>(c: &Case<D>, mode: Mode, o: &mut Out) -> Evaluated {
         // certificates evaluated by the model on the real automaton
         let which = match mode {
             Mode::C01 => "s",
-            Mode::C02 => if D::NAME == "str" { "wct" } else { "wc" },
-            Mode::C07 => if D::NAME == "str" { "wsctu" } else { "wsc" },
+            Mode::C02 => "wct",
+            Mode::C07 => if D::NAME == "str" { "wsctu" } else { "wsct" },
             Mode::C09 | Mode::C08 => "w",
             Mode::C17 | Mode::C05 => "",
-            _ => if D::NAME == "str" { "wsct" } else { "wsc" },
+            _ => "wsct",
         };
         if CERTS && !which.is_empty() {
             let mut want = vec![];
